@@ -6,5 +6,6 @@ MCConstraints == {<<"none", <<0,1>>>>, <<"peryear", <<5,1>>>>, <<"abs", <<5,1>>>
 MCSats == {None, <<1,2>>, <<3,1>>}
 MCEligs == {<<0,1>>, <<1,1>>, <<50,1>>, <<10000,1>>}
 MCDts == {<<1,12>>, <<1,4>>, <<1,1>>}
-MCOverwrites == [spend |-> {<<<<100,1>>, <<0,1>>>>}, cap |-> {<<<<2,1>>, <<400,1>>>>}, cov |-> {<<<<1,4>>, <<3,1>>>>}]
+\* an overwrite whose two values are equal is handed to ProgramInstructions as a scalar (the "defund this program" idiom: alloc={prog: 0})
+MCOverwrites == [spend |-> {<<<<100,1>>, <<0,1>>>>, <<<<0,1>>, <<0,1>>>>}, cap |-> {<<<<2,1>>, <<400,1>>>>}, cov |-> {<<<<1,4>>, <<3,1>>>>}]
 ====
